@@ -52,7 +52,11 @@ def EncOpts.att (o : EncOpts) (i : Nat) : AttOpts := o.atts.getD i {}
 structure Choices where
   /-- the `double` expressions of `RAnsSymbolEncoder::Create` -/
   oracle : ProbOracle
-  /-- `SelectPredictionMethod(att_id, encoder)` -/
+  /-- INTERNAL: the result of `SelectPredictionMethod(att_id, encoder)` per attribute as seen by the
+      per-attribute functions below. It is NOT a free choice of the whole-stream encoder:
+      `encodeGeometry` overwrites it with `selectPredictionMethod` computed from geometry and options
+      (`Choices.resolved`), so a caller's value is ignored (`encodeGeometry_ignores_selectPrediction`).
+      The genuinely `double`-driven choices are the other three fields. -/
   selectPrediction : Nat → Int
   /-- tagged / raw scheme chosen by `EncodeSymbols` for the values of attribute `att_id` -/
   attScheme : Nat → Scheme
@@ -424,9 +428,60 @@ def encodeMetadataPart : Option GeometryMetadata → Option Bytes
   | none => some []
   | some m => if encodeGeometryMetadataStatusFixed m then some (encodeGeometryMetadata m) else none
 
-/-- `PointCloudEncoder::Encode` of `PointCloudSequentialEncoder` / `MeshSequentialEncoder`;
+/-! ### prediction method selection (pure integer / option logic) -/
+
+/-- `IsDataTypeIntegral` -/
+def isIntegralType (dt : Nat) : Bool := (1 ≤ dt && dt ≤ 8) || dt == 11
+
+/-- `PointCloud::GetNamedAttributeId(type)`: the first attribute of that type -/
+def namedAttributeId (atts : List Attribute) (t : Nat) : Option Nat :=
+  atts.findIdx? fun a => a.attType == t
+
+/-- `SelectPredictionMethod(att_id, options, encoder)` (prediction_scheme_encoder_factory.cc):
+    speed ≥ 10 → DIFFERENCE; point clouds → DIFFERENCE; meshes: the texture-coordinate predictor for
+    quantized 2-component TEX_COORD attributes when the position attribute is integral or quantized to
+    ≤ 21 bits with `2·pos_bits + uv_bits < 64` and speed < 4, the geometric normal predictor for NORMAL
+    attributes at speed < 4 when positions are integral or quantized, else DIFFERENCE at speed ≥ 8,
+    PARALLELOGRAM at speed ≥ 2 or fewer than 40 points, else CONSTRAINED_MULTI_PARALLELOGRAM.
+    (Same function as `EbEnc.selectPredictionMethod` for meshes: `selectPredictionMethod_eq_eb`.) -/
+def selectPredictionMethod (isMesh : Bool) (o : EncOpts) (atts : List Attribute) (numPoints attId : Nat) : Int :=
+  if o.speed ≥ 10 then Generated.PREDICTION_DIFFERENCE else
+  if !isMesh then Generated.PREDICTION_DIFFERENCE else
+  let a := atts.getD attId default
+  let attQuant := (o.att attId).quantBits
+  let posId := namedAttributeId atts Generated.geometryAttribute_POSITION.toNat
+  let texCase : Bool :=
+    attQuant != -1 && a.attType == Generated.geometryAttribute_TEX_COORD.toNat && a.numComponents == 2 &&
+    (match posId with
+     | none => false
+     | some pid =>
+       let pa := atts.getD pid default
+       let valid := if isIntegralType pa.dataType then true else
+         let pq := (o.att pid).quantBits
+         decide (pq > 0) && decide (pq ≤ 21) && decide (2 * pq + attQuant < 64)
+       valid && decide (o.speed < 4))
+  if texCase then Generated.MESH_PREDICTION_TEX_COORDS_PORTABLE else
+  if a.attType == Generated.geometryAttribute_NORMAL.toNat then
+    (if o.speed < 4 then
+      match posId with
+      | none => Generated.PREDICTION_DIFFERENCE
+      | some pid =>
+        if isIntegralType (atts.getD pid default).dataType || (o.att pid).quantBits > 0 then
+          Generated.MESH_PREDICTION_GEOMETRIC_NORMAL
+        else Generated.PREDICTION_DIFFERENCE
+     else Generated.PREDICTION_DIFFERENCE)
+  else if o.speed ≥ 8 then Generated.PREDICTION_DIFFERENCE
+  else if o.speed ≥ 2 || numPoints < 40 then Generated.MESH_PREDICTION_PARALLELOGRAM
+  else Generated.MESH_PREDICTION_CONSTRAINED_MULTI_PARALLELOGRAM
+
+/-- the choices with `selectPrediction` computed by the model from geometry and options -/
+def Choices.resolved (ch : Choices) (g : Geometry) (opts : EncOpts) : Choices :=
+  { ch with selectPrediction := selectPredictionMethod g.isMesh opts g.atts g.numPoints }
+
+/-- `PointCloudEncoder::Encode` of `PointCloudSequentialEncoder` / `MeshSequentialEncoder` for given
+    results of `SelectPredictionMethod` (`ch.selectPrediction`);
     also returns the per-attribute encoder states (used to state what the decoder returns). -/
-def encodeGeometryFull (ch : Choices) (g : Geometry) (md : Option GeometryMetadata) (opts : EncOpts) :
+def encodeGeometryCore (ch : Choices) (g : Geometry) (md : Option GeometryMetadata) (opts : EncOpts) :
     Option (Bytes × List AttEnc) :=
   match encodeMetadataPart md with
   | none => none
@@ -442,6 +497,12 @@ def encodeGeometryFull (ch : Choices) (g : Geometry) (md : Option GeometryMetada
       | none => none
       | some (ab, encs) =>
         some (encodeHeader g.isMesh md.isSome ++ mdBytes ++ gd ++ ab, encs)
+
+/-- `PointCloudEncoder::Encode` of the sequential encoders: the prediction methods are computed from
+    geometry and options (`Choices.resolved`), only the `double`-driven decisions come from `ch` -/
+def encodeGeometryFull (ch : Choices) (g : Geometry) (md : Option GeometryMetadata) (opts : EncOpts) :
+    Option (Bytes × List AttEnc) :=
+  encodeGeometryCore (ch.resolved g opts) g md opts
 
 /-- the bytes of the encoded geometry -/
 def encodeGeometry (ch : Choices) (g : Geometry) (md : Option GeometryMetadata) (opts : EncOpts) :
